@@ -16,11 +16,11 @@ WHY_PROPS = {
 
 
 def record(chk, name, kind, seed, steps=150, shards=2, metric="iou", max_idle=2, objects=4, spread=90, crafted=True,
-           constraints=None, scenes="0,7", rotated=True, extra=()):
+           constraints=None, scenes="0,7", rotated=True, extra=(), history=2):
     out = chk.workdir / f"{name}.ndjson"
     cmd = [str(vlib.VH), "record", "r2", "--kind", kind, "--shards", str(shards), "--max-idle", str(max_idle), "--metric", metric,
            "--seed", str(seed), "--steps", str(steps), "--objects", str(objects), "--spread", str(spread), "--scenes", scenes,
-           "--history", "2", "--out", str(out)] + list(extra)
+           "--history", str(history), "--out", str(out)] + list(extra)
     if crafted:
         cmd += ["--crafted", "1"]
     if rotated:
